@@ -290,12 +290,19 @@ fn check_path_pairs(ctx: &mut Ctx) {
     let mut symbols = BTreeMap::new();
     symbols.insert("s".to_string(), Value::Int(9));
     symbols.insert("a".to_string(), m(vec![("b", Value::Int(14))]));
+    // symbols whose value is none / false / 0 / "" / empty: registered all the same, and a step into a none symbol gives none
+    symbols.insert("nothing".to_string(), Value::None);
+    symbols.insert("off".to_string(), Value::Bool(false));
+    symbols.insert("zero".to_string(), Value::Int(0));
+    symbols.insert("blank".to_string(), Value::String(String::new()));
+    symbols.insert("empty".to_string(), Value::Vec(vec![]));
     let f = |e: Expr, k: &str| Expr::index(e, Index::from(k));
     let i = |e: Expr, k: usize| Expr::index(e, Index::from(k));
     let paths: Vec<Expr> = vec![
         Expr::reff("a.b"), f(Expr::reff("a"), "b"), f(Expr::reff("x.a"), "b"), f(f(Expr::reff("x"), "a"), "b"), f(Expr::reff("x"), "a.b"), f(Expr::reff("a"), "b.c"),
         f(Expr::reff("a"), "0"), i(Expr::reff("a"), 0), Expr::reff(":s"), Expr::symbol("s"), Expr::reff("s"), i(Expr::reff("l"), 0), f(Expr::reff("l"), "0"), i(Expr::reff("l"), 1),
         f(f(Expr::reff("facts"), "a"), "b"), f(Expr::reff("facts"), "a.b"), f(Expr::reff("facts"), "facts"), f(Expr::symbol("a"), "b"), Expr::reff("facts"), f(f(Expr::reff("facts"), "facts"), "a"),
+        Expr::symbol("nothing"), f(Expr::symbol("nothing"), "b"), i(Expr::symbol("nothing"), 0), Expr::symbol("off"), Expr::symbol("zero"), Expr::symbol("blank"), Expr::symbol("empty"), i(Expr::symbol("empty"), 0), Expr::symbol("unregistered"),
     ];
     let mut rules = vec![];
     for (pi, p) in paths.iter().enumerate() {
